@@ -70,11 +70,11 @@ pub mod shadow_std {
     /// atomic access, spawn and join is a scheduling point at which the simulator decides which
     /// thread runs next (world::decide_sched).
     pub mod thread {
-        pub use super::super::simthread::{available_parallelism, park_timeout, sleep, spawn, Builder, JoinHandle};
-        pub use ::std::thread::*;
-        pub use shuttle::thread::{
-            current, park, scope, yield_now, AccessError, LocalKey, Scope, ScopedJoinHandle, Thread, ThreadId,
+        pub use super::super::simthread::{
+            available_parallelism, park_timeout, scope, sleep, spawn, Builder, JoinHandle, Scope, ScopedJoinHandle,
         };
+        pub use ::std::thread::*;
+        pub use shuttle::thread::{current, park, yield_now, AccessError, LocalKey, Thread, ThreadId};
     }
 
     pub mod sync {
@@ -2626,21 +2626,25 @@ pub mod simthread {
     #[derive(Debug, Default)]
     pub struct Builder {
         inner: shuttle::thread::Builder,
+        name: Option<String>,
     }
     impl Builder {
         pub fn new() -> Self {
             Builder {
                 inner: shuttle::thread::Builder::new(),
+                name: None,
             }
         }
         pub fn name(self, name: String) -> Self {
             Builder {
-                inner: self.inner.name(name),
+                inner: self.inner.name(name.clone()),
+                name: Some(name),
             }
         }
         pub fn stack_size(self, n: usize) -> Self {
             Builder {
                 inner: self.inner.stack_size(n),
+                name: self.name,
             }
         }
         pub fn spawn<F, T>(self, f: F) -> std::io::Result<JoinHandle<T>>
@@ -2654,17 +2658,140 @@ pub mod simthread {
                 done,
             })
         }
-        /// the engine has no named scoped threads: the thread is a plain scoped one
-        pub fn spawn_scoped<'scope, 'env, F, T>(
-            self,
-            scope: &'scope shuttle::thread::Scope<'scope, 'env>,
-            f: F,
-        ) -> std::io::Result<shuttle::thread::ScopedJoinHandle<'scope, T>>
+        pub fn spawn_scoped<'scope, 'env, F, T>(self, scope: &'scope Scope<'scope, 'env>, f: F) -> std::io::Result<ScopedJoinHandle<'scope, T>>
         where
             F: FnOnce() -> T + Send + 'scope,
             T: Send + 'scope,
         {
-            Ok(scope.spawn(f))
+            Ok(scope.spawn_named(self.name, f))
+        }
+    }
+
+    // ---- scoped threads --------------------------------------------------------------------
+    // The engine's own `thread::scope` wakes its owner when *any* scoped thread of that owner
+    // finishes, whatever the owner is blocked on at that moment: a scope nested in a task that
+    // still has scoped threads of an outer scope running returns early, and `join` on a handle
+    // finds no result. Scoped threads are therefore ordinary engine threads here (lifetime erased)
+    // that report completion through a channel of their own, and the scope waits for every one of
+    // them by handle before it returns — also when its body panics.
+    pub struct Scope<'scope, 'env: 'scope> {
+        threads: std::sync::Mutex<Vec<shuttle::thread::JoinHandle<()>>>,
+        unjoined_panic: std::sync::Arc<std::sync::atomic::AtomicU64>,
+        scope: std::marker::PhantomData<&'scope mut &'scope ()>,
+        env: std::marker::PhantomData<&'env mut &'env ()>,
+    }
+    impl std::fmt::Debug for Scope<'_, '_> {
+        fn fmt(&self, f: &mut std::fmt::Formatter<'_>) -> std::fmt::Result {
+            f.debug_struct("Scope").finish_non_exhaustive()
+        }
+    }
+    pub struct ScopedJoinHandle<'scope, T> {
+        result: std::sync::Arc<std::sync::Mutex<Option<std::thread::Result<T>>>>,
+        done_rx: shuttle::sync::mpsc::Receiver<()>,
+        finished: std::sync::Arc<std::sync::atomic::AtomicBool>,
+        unjoined_panic: std::sync::Arc<std::sync::atomic::AtomicU64>,
+        thread: shuttle::thread::Thread,
+        _marker: std::marker::PhantomData<&'scope T>,
+    }
+    impl<T> std::fmt::Debug for ScopedJoinHandle<'_, T> {
+        fn fmt(&self, f: &mut std::fmt::Formatter<'_>) -> std::fmt::Result {
+            f.debug_struct("ScopedJoinHandle").finish_non_exhaustive()
+        }
+    }
+    impl<T> ScopedJoinHandle<'_, T> {
+        pub fn join(self) -> std::thread::Result<T> {
+            let _ = self.done_rx.recv();
+            let r = self.result.lock().unwrap().take().expect("a finished scoped thread left a result");
+            if r.is_err() {
+                // the panic is handed to the caller: the scope does not raise it again
+                self.unjoined_panic.fetch_sub(1, std::sync::atomic::Ordering::SeqCst);
+            }
+            r
+        }
+        pub fn thread(&self) -> &shuttle::thread::Thread {
+            &self.thread
+        }
+        pub fn is_finished(&self) -> bool {
+            shuttle::thread::yield_now();
+            self.finished.load(std::sync::atomic::Ordering::SeqCst)
+        }
+    }
+    impl<'scope, 'env> Scope<'scope, 'env> {
+        pub fn spawn<F, T>(&'scope self, f: F) -> ScopedJoinHandle<'scope, T>
+        where
+            F: FnOnce() -> T + Send + 'scope,
+            T: Send + 'scope,
+        {
+            self.spawn_named(None, f)
+        }
+        pub(crate) fn spawn_named<F, T>(&'scope self, name: Option<String>, f: F) -> ScopedJoinHandle<'scope, T>
+        where
+            F: FnOnce() -> T + Send + 'scope,
+            T: Send + 'scope,
+        {
+            let result: std::sync::Arc<std::sync::Mutex<Option<std::thread::Result<T>>>> = std::sync::Arc::new(std::sync::Mutex::new(None));
+            let finished = std::sync::Arc::new(std::sync::atomic::AtomicBool::new(false));
+            let (done_tx, done_rx) = shuttle::sync::mpsc::channel::<()>();
+            let (r2, f2, any) = (result.clone(), finished.clone(), self.unjoined_panic.clone());
+            let body: Box<dyn FnOnce() + Send + 'scope> = Box::new(move || {
+                let r = std::panic::catch_unwind(std::panic::AssertUnwindSafe(f));
+                if r.is_err() {
+                    any.fetch_add(1, std::sync::atomic::Ordering::SeqCst);
+                }
+                *r2.lock().unwrap() = Some(r);
+                f2.store(true, std::sync::atomic::Ordering::SeqCst);
+                let _ = done_tx.send(());
+            });
+            // SAFETY: `scope` joins every thread it spawned before it returns (also when its body
+            // panics), so nothing borrowed for 'scope is touched after 'scope ends
+            let body: Box<dyn FnOnce() + Send + 'static> = unsafe { std::mem::transmute(body) };
+            let mut b = shuttle::thread::Builder::new();
+            if let Some(n) = name {
+                b = b.name(n);
+            }
+            let h = b.spawn(body).expect("spawning a simulated thread");
+            let thread = h.thread().clone();
+            self.threads.lock().unwrap().push(h);
+            ScopedJoinHandle {
+                result,
+                done_rx,
+                finished,
+                unjoined_panic: self.unjoined_panic.clone(),
+                thread,
+                _marker: std::marker::PhantomData,
+            }
+        }
+    }
+    pub fn scope<'env, F, T>(f: F) -> T
+    where
+        F: for<'scope> FnOnce(&'scope Scope<'scope, 'env>) -> T,
+    {
+        let sc = Scope {
+            threads: std::sync::Mutex::new(vec![]),
+            unjoined_panic: std::sync::Arc::new(std::sync::atomic::AtomicU64::new(0)),
+            scope: std::marker::PhantomData,
+            env: std::marker::PhantomData,
+        };
+        let r = std::panic::catch_unwind(std::panic::AssertUnwindSafe(|| f(&sc)));
+        // wait for every thread of the scope (threads may spawn further threads while we wait)
+        loop {
+            let batch: Vec<shuttle::thread::JoinHandle<()>> = std::mem::take(&mut *sc.threads.lock().unwrap());
+            if batch.is_empty() {
+                break;
+            }
+            for h in batch {
+                let _ = h.join();
+            }
+        }
+        match r {
+            Err(e) => std::panic::resume_unwind(e),
+            Ok(v) => {
+                if sc.unjoined_panic.load(std::sync::atomic::Ordering::SeqCst) > 0 {
+                    // like std: a scoped thread panicked and nobody took the panic through `join`
+                    panic!("a scoped thread panicked");
+                }
+                v
+            }
         }
     }
 
